@@ -496,3 +496,132 @@ Proof.
   - destruct (H Hb) as [H1 H2]. split; intros E; inversion E; congruence.
   - contradiction.
 Qed.
+
+(* ------------------------------------------------------------------------------------------ *)
+(* 8. The exact error for one parenthesis too many / too few                                    *)
+
+(* the loop on a prefix of the input: the last token of the prefix looks ahead at `la` *)
+Fixpoint build_loop_la (ts : list token) (la : option token) (stack : list node) (lr : bool)
+  : outcome (list node) :=
+  match ts with
+  | [] => Ok stack
+  | t :: ts' =>
+      let next := match ts' with x :: _ => Some x | [] => la end in
+      do stack1 <- step t next lr stack;
+      build_loop_la ts' la stack1 (is_rightsided_value t)
+  end.
+
+Fixpoint lr_after (pre : list token) (lr : bool) : bool :=
+  match pre with [] => lr | t :: r => lr_after r (is_rightsided_value t) end.
+
+Lemma build_loop_la_none ts : forall st lr, build_loop_la ts None st lr = build_loop ts st lr.
+Proof.
+  induction ts as [|t ts IH]; intros st lr; [reflexivity|].
+  rewrite build_loop_cons. cbn [build_loop_la]. unfold next_of.
+  destruct (step t match ts with [] => None | x :: _ => Some x end lr st); cbn [bind]; auto.
+Qed.
+
+Lemma build_loop_app pre rest : forall st lr,
+  build_loop (pre ++ rest) st lr =
+  do st1 <- build_loop_la pre (next_of rest) st lr; build_loop rest st1 (lr_after pre lr).
+Proof.
+  induction pre as [|t pre IH]; intros st lr; [reflexivity|].
+  cbn [app]. rewrite build_loop_cons. cbn [build_loop_la lr_after].
+  replace (next_of (pre ++ rest)) with (match pre with x :: _ => Some x | [] => next_of rest end)
+    by (destruct pre; reflexivity).
+  destruct (step t _ lr st); cbn [bind]; auto.
+Qed.
+
+(* a closing parenthesis as lookahead decides nothing *)
+Lemma step_la_rbrace t lr st : step t (Some TRBrace) lr st = step t None lr st.
+Proof.
+  destruct t; cbn [step token_to_operator]; rewrite ?is_assignment_assigns, ?is_leftsided_starts; reflexivity.
+Qed.
+
+Lemma build_loop_la_rbrace ts : forall st lr,
+  build_loop_la ts (Some TRBrace) st lr = build_loop_la ts None st lr.
+Proof.
+  induction ts as [|t ts IH]; intros st lr; [reflexivity|]. cbn [build_loop_la].
+  destruct ts as [|x ts].
+  - rewrite step_la_rbrace. reflexivity.
+  - destruct (step t (Some x) lr st); cbn [bind]; auto.
+Qed.
+
+Lemma step_close_zero st p next lr : levels st 0 p -> step TRBrace next lr st = Err EUnmatchedRBrace.
+Proof.
+  intros H. apply levels_inv in H. destruct H as (L & st' & p' & -> & HL & Hr & _).
+  destruct Hr as [(_ & -> & _)|(d' & E & _)]; [|discriminate E]. rewrite app_nil_r.
+  cbn [step]. destruct HL as [ch|o init rch Ho Hi|init rch cch Hi Hc].
+  - reflexivity.
+  - cbn [length Nat.leb]. rewrite collapse_S by exact Ho. reflexivity.
+  - cbn [length Nat.leb]. rewrite collapse_TC. reflexivity.
+Qed.
+
+(* the number of open parentheses can be read off the stack: one RootNode per level *)
+Definition nroots (st : list node) : nat := length (filter (fun x => is_root_op (nop x)) st).
+
+Lemma level_nroots L : level L -> nroots L = 1%nat.
+Proof.
+  intros H. destruct H as [ch|o init rch Ho Hi|init rch cch Hi Hc]; unfold nroots; cbn [filter nop is_root_op root_node length].
+  - reflexivity.
+  - destruct (seq_op_cases o Ho) as [-> | ->]; reflexivity.
+  - reflexivity.
+Qed.
+
+Lemma levels_nroots st d p : levels st d p -> nroots st = S d.
+Proof.
+  induction 1 as [L HL|L st d p HL Hst IH]; [apply level_nroots; exact HL|].
+  unfold nroots in *. rewrite filter_app, app_length, IH. pose proof (level_nroots L HL) as E. unfold nroots in E. lia.
+Qed.
+
+(* the stack at the end of a successful build has a single level *)
+Lemma build_ok_stack ts n : tokens_to_operator_tree ts = Ok n ->
+  exists st p, build_loop ts [root_node] false = Ok st /\ levels st 0 p.
+Proof.
+  unfold tokens_to_operator_tree. intros H.
+  pose proof (loop_levels ts [root_node] false 0 1 levels_init) as Hl.
+  destruct (build_loop ts [root_node] false) as [st| |]; try discriminate H. cbn [bind] in H.
+  destruct Hl as (d & p & Hl & _ & _). exists st, p. split; [reflexivity|].
+  pose proof Hl as Hl0. apply levels_inv in Hl. destruct Hl as (L & st' & p' & -> & HL & Hr & ->).
+  rewrite collapse_level in H by exact HL.
+  destruct (Nat.ltb 1 (length (nch (closed_of L)))); [discriminate H|]. cbn [bind] in H.
+  destruct Hr as [(-> & -> & ->)|(d' & -> & Hst)]; [exact Hl0|].
+  pose proof (levels_nonempty _ _ _ Hst). destruct st'; [congruence|discriminate H].
+Qed.
+
+(* input that builds, followed by one more `)`: exactly UnmatchedRBrace, whatever comes after *)
+Theorem build_excess_close pre post n : tokens_to_operator_tree pre = Ok n ->
+  tokens_to_operator_tree (pre ++ TRBrace :: post) = Err EUnmatchedRBrace.
+Proof.
+  intros H. destruct (build_ok_stack pre n H) as (st & p & Hb & Hl).
+  unfold tokens_to_operator_tree. rewrite build_loop_app. cbn [next_of].
+  rewrite build_loop_la_rbrace, build_loop_la_none, Hb. cbn [bind].
+  rewrite build_loop_cons, (step_close_zero st p _ _ Hl). reflexivity.
+Qed.
+
+(* input that builds once a final `)` is added: exactly UnmatchedLBrace without it *)
+Theorem build_excess_open ts n : tokens_to_operator_tree (ts ++ [TRBrace]) = Ok n ->
+  tokens_to_operator_tree ts = Err EUnmatchedLBrace.
+Proof.
+  intros H. destruct (build_ok_stack _ n H) as (st2 & p2 & Hb & Hl2).
+  rewrite build_loop_app in Hb. cbn [next_of] in Hb.
+  rewrite build_loop_la_rbrace, build_loop_la_none in Hb.
+  unfold tokens_to_operator_tree.
+  pose proof (loop_levels ts [root_node] false 0 1 levels_init) as Hl.
+  destruct (build_loop ts [root_node] false) as [st1| |]; try discriminate Hb. cbn [bind] in Hb.
+  destruct Hl as (d1 & p1 & Hl1 & _ & _).
+  rewrite build_loop_cons in Hb. cbn [build_loop] in Hb.
+  pose proof (step_levels TRBrace (next_of []) (lr_after ts false) st1 d1 p1 Hl1) as Hs.
+  destruct (step TRBrace (next_of []) (lr_after ts false) st1) as [st2'| |] eqn:Es; try discriminate Hb.
+  cbn [bind] in Hb. injection Hb as ->.
+  destruct Hs as (d2 & p2' & Hl2' & _ & Hd).
+  assert (Ed : d2 = 0%nat).
+  { pose proof (levels_nroots _ _ _ Hl2) as E1. pose proof (levels_nroots _ _ _ Hl2') as E2. lia. }
+  subst d2. cbn [depth_step] in Hd. destruct d1 as [|d1]; [discriminate Hd|]. injection Hd as ->.
+  apply levels_inv in Hl1. destruct Hl1 as (L & st' & p' & -> & HL & Hr & _).
+  destruct Hr as [(E & _)|(d' & E & Hst)]; [discriminate E|]. injection E as <-.
+  cbn [step] in Es. destruct (length (L ++ st') <=? 1)%nat; [discriminate Es|].
+  rewrite collapse_level in Es by exact HL. cbn [bind]. rewrite collapse_level by exact HL.
+  destruct (Nat.ltb 1 (length (nch (closed_of L)))); [discriminate Es|]. cbn [bind].
+  pose proof (levels_nonempty _ _ _ Hst). destruct st'; [congruence|reflexivity].
+Qed.
